@@ -35,7 +35,7 @@ var soupNames = []string{"a", "b", "x", "y", "i0", "b0", "s0", "li0", "ls0", "a.
 var soupVocab = func() []string {
 	v := []string{"(", ")", "(", ")", "(", ")", "[", "]", ",", ",",
 		"if", "let", "any", "all", "map", "filter", "reduce", "collect",
-		"true", "false", "Ki", "Ks", "Kl",
+		"true", "false", "Ki", "Ks", "Kl", "Kset", "Ksset", "Knil", "Kf", "Kraw", "Kbig", "Kempty",
 		"c_id", "c_fail", "c_sum", "c_cnt",
 		"!x", "!", "a!", "1a", ".a", "a.", "a..b", "!!a", "!=", "!(", "-", "--1", "+",
 		"0", "1", "-1", "+1", "007", "2", "3", "9223372036854775807", "9223372036854775808", "-9223372036854775808", "1e3", "0x10",
@@ -141,6 +141,14 @@ func c06Config(c C06Case) *eval.Config {
 	cc.ConstantMap["Ki"] = int64(4)
 	cc.ConstantMap["Ks"] = "k"
 	cc.ConstantMap["Kl"] = []int64{1, 2, 3}
+	// constants may hold anything a variable may: pre-built sets, nil, values of unsupported types, long lists
+	cc.ConstantMap["Kset"] = map[int64]struct{}{1: {}, 4: {}}
+	cc.ConstantMap["Ksset"] = map[string]struct{}{"k": {}}
+	cc.ConstantMap["Knil"] = nil
+	cc.ConstantMap["Kf"] = 2.5
+	cc.ConstantMap["Kraw"] = int(4)
+	cc.ConstantMap["Kbig"] = bigInts(120)
+	cc.ConstantMap["Kempty"] = []int64{}
 	log := &Log{}
 	registerCustom(cc, log)
 	cc.StatelessOperators = []string{"c_id", "c_sum"}
@@ -400,7 +408,7 @@ func genUntyped(t *rapid.T, d int) *m.Node {
 		case 1:
 			return m.Const(genVal(t, m.Ty(rapid.IntRange(0, 4).Draw(t, "uty")), "ulit"))
 		default:
-			return m.NamedConst(rapid.SampledFrom([]string{"Ki", "Ks", "Kl", "true", "false"}).Draw(t, "uconst"), nil)
+			return m.NamedConst(rapid.SampledFrom([]string{"Ki", "Ks", "Kl", "true", "false", "Kset", "Kset", "Ksset", "Knil", "Kf", "Kraw", "Kbig", "Kempty"}).Draw(t, "uconst"), nil)
 		}
 	}
 	if rapid.IntRange(0, 7).Draw(t, "uif") == 0 {
@@ -485,8 +493,18 @@ func sweepC06(tier string, shard, shards int, emit func(C06Case)) {
 			emit(C06Case{Src: "(or (overlap x y) (in x y) (= x y) (!= y x))", Mask: (i + j) % 16, Undef: true, Binds: []int{-1000 - i*100 - j}, Origin: "sweep-list-pairs"})
 		}
 	}
+	// the same operators over every pair of constants (folded at compile time when folding is on)
+	{
+		ks := []string{"Ki", "Ks", "Kl", "Kset", "Ksset", "Knil", "Kf", "Kraw", "Kbig", "Kempty", "true"}
+		for i, a := range ks {
+			for j, b := range ks {
+				src := "(if b0 (or (overlap " + a + " " + b + ") (in " + a + " " + b + ") (= " + a + " " + b + ") (!= " + b + " " + a + ") (eq " + a + " " + b + " " + a + ")) false)"
+				emit(C06Case{Src: src, Mask: []int{1, 15, 0}[(i+j)%3], Undef: true, Binds: []int{1, 2}, Origin: "sweep-constant-pairs"})
+			}
+		}
+	}
 	for _, op := range []string{"+", "*", "=", "c_sum"} {
-		for _, n := range []int{126, 127, 128, 129, 255, 256, 257} {
+		for _, n := range []int{126, 127, 128, 129, 255, 256, 257, 300, 383, 384, 511, 512, 513, 640} {
 			emit(C06Case{Src: "(" + op + rep(" x", n) + ")", Mask: 15, Undef: true, Binds: []int{-3, 7}, NoDump: true, Origin: "sweep-wide"})
 		}
 	}
